@@ -10,6 +10,18 @@ def run(ck):
     open(cfg, "w").write("SPECIFICATION Spec\nCONSTANTS\n  NModes = %d\n  MaxLen = %d\nINVARIANT BubbleIsFock\nINVARIANT AdjointSame\n"
                          "INVARIANT Anticommute\nCHECK_DEADLOCK FALSE\n" % ((3, 5) if ck.tier == "quick" else (4, 6)))
     ck.model("MC_LocalOps.tla", cfg, timeout=3000)
+    # negative controls: commuting operators / no negative expectation must be rejected - otherwise the sign part of
+    # BubbleIsFock and Anticommute would be vacuous
+    ck.cov["negative_controls"] = []
+    for inv in ("ControlCommute", "ControlNeverNegative"):
+        ncfg = os.path.join(ck.scratch, f"MC_LocalOpsN_{inv}.cfg")
+        open(ncfg, "w").write(f"SPECIFICATION Spec\nCONSTANTS\n  NModes = 2\n  MaxLen = 4\nINVARIANT {inv}\nCHECK_DEADLOCK FALSE\n")
+        r, st = ck.model("MC_LocalOps.tla", ncfg, workers=1, expect_ok=False)
+        ck.cov["models"][-1]["negative_control"] = True    # stops at the expected counterexample, hence not "complete"
+        hit = f"Invariant {inv} is violated" in r["out"]
+        ck.cov["negative_controls"].append({"instance": "2 modes, strings up to 4", "invariant": inv, "violated_as_expected": hit})
+        if not hit and not ck.selftest:    # (the self-test of the trace binding skips the pure models)
+            ck.problems.append(f"negative control {inv} was not rejected by MC_LocalOps")
     q = ck.tier == "quick"
     tids = gen.Tids()
     progs = localops.random_string_programs(ck.seed, 150 if q else 3000, tids)
